@@ -146,3 +146,44 @@ Definition wrap_static (T : ty) (g : dv -> outcome dv) : outcome (dv -> outcome 
   | Some c => apply_fun c Pos g
   | None => Err UnboundTypeVar
   end.
+
+(* A second-order function [h] (it receives a callback) under a function contract: the callback is
+   itself wrapped by the domain contract, with the polarity flipped ($func: the domain label is
+   %label/flip_polarity% (go_dom label)).  A callback that is not a function at all is a data
+   value handed to a function contract. *)
+Inductive arg1 :=
+| ACallback (cb : dv -> outcome dv)
+| AData (v : dv).
+
+Definition apply_arg (c : cexpr) (p : polarity) (a : arg1) : outcome (dv -> outcome dv) :=
+  match a with
+  | ACallback cb => apply_fun c p cb
+  | AData v =>
+      (* a data value where a function is expected: the contract decides (blame, or $dyn lets it
+         through and the typed body then applies a non-function: not modelled) *)
+      match apply_data c p v with
+      | Ok _ => Err OutOfFragment
+      | Err e => Err e
+      end
+  end.
+
+Definition apply_ho (c : cexpr) (p : polarity) (h : (dv -> outcome dv) -> outcome dv)
+  : outcome (arg1 -> outcome dv) :=
+  match c with
+  | CFunc d cd =>
+      Ok (fun a => obind (apply_arg d (flip p) a) (fun cb' => obind (h cb') (apply_data cd p)))
+  | CFuncDom d => Ok (fun a => obind (apply_arg d (flip p) a) h)
+  | _ => Err OutOfFragment
+  end.
+
+Definition wrap2_full (T : ty) (h : (dv -> outcome dv) -> outcome dv) : outcome (arg1 -> outcome dv) :=
+  match contract_of T with
+  | Some c => apply_ho c Pos h
+  | None => Err UnboundTypeVar
+  end.
+
+Definition wrap2_static (T : ty) (h : (dv -> outcome dv) -> outcome dv) : outcome (arg1 -> outcome dv) :=
+  match contract_static_of T with
+  | Some c => apply_ho c Pos h
+  | None => Err UnboundTypeVar
+  end.
